@@ -5,6 +5,8 @@ CONSTANTS
     MaxR = 2
     MaxFault = 1
     TrackFiles = FALSE
+    Extras = FALSE
+    SymBreak = TRUE
     ResolveLock = TRUE
     CloseWaitsForHolders = TRUE
     LayerKeepsBlobRef = TRUE
